@@ -252,7 +252,7 @@ Section Guards.
 
   (* ---- metadata of one field ------------------------------------------------------ *)
   Definition var_common (v : xvar) : bool :=
-    v_init v && negb (v_mixed v) && negb (v_any_type v) && negb (v_nillable v)
+    v_init v && negb (v_mixed v) && negb (v_any_type v)
     && match v_elements v with [] => true | _ => false end
     && match v_wildcards v with [] => true | _ => false end
     && negb (v_index v =? 0).
@@ -274,7 +274,7 @@ Section Guards.
   Definition no_wrapper (v : xvar) : bool := match v_wrapper_qname v with None => true | Some _ => false end.
 
   Definition wf_attr (v : xvar) : bool :=
-    v_is KAttribute v && var_common v && no_wrapper v
+    v_is KAttribute v && var_common v && negb (v_nillable v) && no_wrapper v
     && match v_clazz v with None => true | Some _ => false end
     && match v_factory v with None => true | Some _ => false end
     && negb (reserved_name (v_qname v))
@@ -292,7 +292,7 @@ Section Guards.
        end.
 
   Definition wf_text (v : xvar) : bool :=
-    v_is KText v && var_common v && no_wrapper v
+    v_is KText v && var_common v && negb (v_nillable v) && no_wrapper v
     && match v_clazz v with None => true | Some _ => false end
     && match v_factory v with None => true | Some _ => false end
     && match var_type v with
@@ -319,18 +319,25 @@ Section Guards.
                 && match v_tokens_factory v with None => true | Some _ => false end
     end.
 
+  (* nillable (xsi:nil): inside the fragment for fields of a simple type (scalar or list, no tokens, no value
+     default) HOLDING VALUES WITH A NON-EMPTY TEXT (fits): the serializer adds xsi:nil="true" to falsy values
+     (0, false), the writer drops it again because the element has content.  None in a nillable field is
+     written <f xsi:nil="true"/> (reads back; not proved); an empty text, a class-typed nillable field or a
+     nillable class are refuted (C01_nil_conflation_refuted, finding C01-F1) *)
   Definition wf_elem (v : xvar) : bool :=
     v_is KElement v && var_common v && nonempty_s (v_qname v) && wrapper_ok v
     && match var_type v with
        | Some (TClass k) =>
-           opt_eqb N.eqb (v_clazz v) (Some k)
+           negb (v_nillable v)
+           && opt_eqb N.eqb (v_clazz v) (Some k)
            && match v_tokens_factory v with None => true | Some _ => false end
            && match v_factory v with
               | None => match v_default v with DNone => true | _ => false end
               | Some f => factory_default f (v_default v)
               end
        | Some TQName =>
-           match v_clazz v with None => true | Some _ => false end
+           negb (v_nillable v)
+           && match v_clazz v with None => true | Some _ => false end
            && match v_tokens_factory v with None => true | Some _ => false end
            && match v_factory v with
               | None => match v_default v with DNone => true | _ => false end
@@ -340,9 +347,14 @@ Section Guards.
            simple_type t
            && match v_clazz v with None => true | Some _ => false end
            && match v_factory v, v_tokens_factory v with
-              | None, None => match v_default v with DNone | DValue (VP _) => true | _ => false end
-              | Some f, _ => factory_default f (v_default v)
-              | None, Some f => factory_default f (v_default v)
+              | None, None => match v_default v with
+                              | DNone => true
+                              | DValue (VP _) => negb (v_nillable v)
+                              | _ => false
+                              end
+              | Some f, None => factory_default f (v_default v)
+              | Some f, Some _ => negb (v_nillable v) && factory_default f (v_default v)
+              | None, Some f => negb (v_nillable v) && factory_default f (v_default v)
               end
        | None => false
        end.
@@ -363,7 +375,7 @@ Section Guards.
      C01_sequence_tokens_refuted), no wrapper element (modelling rule: every item gets its own
      wrapper element, which reads back but is not proved) *)
   Definition seq_member (v : xvar) : bool :=
-    no_wrapper v && match v_tokens_factory v with None => true | Some _ => false end.
+    no_wrapper v && match v_tokens_factory v with None => true | Some _ => false end && negb (v_nillable v).
   Fixpoint seq_spans_ok (fuel : nat) (vars : list xvar) : bool :=
     match fuel with
     | O => false
@@ -497,7 +509,8 @@ Section Guards.
      '' / b'' otherwise *)
   Definition empty_ok (v : xvar) (p : prim) : bool :=
     nonempty_s (leaf_text (v_format v) p)
-    || (match v_default v with DValue _ => false | _ => true end
+    || (negb (v_nillable v)
+        && match v_default v with DValue _ => false | _ => true end
         && match p with PStr [] => true | PBytes [] => ptype_eqb (vtype v) TBytes | _ => false end).
 
   Definition nonempty {A} (l : list A) : bool := match l with [] => false | _ => true end.
@@ -548,7 +561,7 @@ Section Guards.
     match v_factory v, v_tokens_factory v with
     | None, None =>
         match x with
-        | VNone => match v_default v with DNone => true | _ => false end
+        | VNone => match v_default v with DNone => negb (v_nillable v) | _ => false end
         | _ => fits_item rec v x
         end
     | Some f, None =>
